@@ -324,7 +324,15 @@ pub fn check_step(cfg: &SpecCfg, obs: &StepObs, focus: &Focus) -> (Vec<Finding>,
                         }
                         prev.next = e1.next;
                         for (k, v) in e1.to {
-                            prev.to.entry(k).or_default().extend(v);
+                            // a user killed earlier in the same segment may or may not still be
+                            // reached by what follows (it is on its way out)
+                            let fading = pending_erase.contains(&k);
+                            prev.to.entry(k).or_default().extend(v.into_iter().map(|mut l| {
+                                if fading && l.req == spec::Req::Must {
+                                    l.req = spec::Req::May;
+                                }
+                                l
+                            }));
                         }
                         prev.actor.extend(e1.actor);
                         prev.closed.extend(e1.closed);
